@@ -145,3 +145,15 @@ def _d15(prop, p, fails, rerun):
     if not found:
         return False
     return findings.fixed_by(p, dict(p, s=neutral), fails, rerun)
+
+
+@findings.neutraliser('env-name-stripped')
+def _n_d15(p):
+    return dict(p, s=_strip_env_names(p['s'])[1]) if 's' in p else p
+
+
+@findings.neutraliser('begin-bracket-name')
+def _n_d11(p):
+    if 's' not in p:
+        return p
+    return dict(p, s=_BEGIN_BRACKET.sub(lambda m: m.group().replace('begin', 'bgn'), p['s']))
